@@ -125,6 +125,8 @@ def run(ctx):
 
     for i in range(900 if thorough else 70):
         one(ca.int_weights_case(rng), "int-weights")
+    for i in range(80 if thorough else 8):
+        one(ca.max_common_case(rng), "common-at-dtype-max")
     for i in range(400 if thorough else 40):
         one(ca.scale_case(rng, decimal=(i % 3 == 2)), "scale")
     for i in range(10 if thorough else 1):
